@@ -9,27 +9,33 @@ HARNESSES = [
 ]
 ASSUMPTIONS = [
     "array list: item sizes 1,3,8,128,129,300; storage dynamic (initial 0,1,2 items) or static (2,3 items between two 64-byte guard "
-    "zones inside a guard-allocator block); family al1 = one list, full single-list alphabet, length <= 5 (quick: <= 4), run to "
-    "fixpoint; family al2 = lists A and B with copy in both directions, swap_contents and the storage-changing single-list "
-    "operations, length <= 3 (quick: <= 2), run to fixpoint",
+    "zones inside a guard-allocator block).  Family al1 = one list, full single-list alphabet (38 symbols), run to fixpoint with "
+    "length <= 5 (quick: <= 4; initial allocations 1 and 2 reach the same states as 0 and run with length <= 3).  Family al2 = "
+    "lists A and B, copy in both directions, swap_contents in both argument orders and the storage-changing single-list operations "
+    "(17 symbols), run to fixpoint with length <= 4 (quick: <= 3, item sizes 8 and 129 only)",
+    "thorough tier repeats both array-list families (one length bound lower) and the linked-list models against a Debug build, where "
+    "AWS_PRECONDITION/AWS_POSTCONDITION and the 0xDD debug fills are live",
     "a new element always gets the smallest id not held by any list (canonical ids keep the space finite); element bytes are a "
-    "function of (id, byte offset) over the full item width",
+    "function of (id, byte offset) over the full item width; al2 has no sort, so its canonical state renames ids in order of first "
+    "appearance (symmetry reduction); al1 keeps ids because sort orders by them",
     "reading (DESIGN section 6): elements between the old length and the index written by set_at are unspecified until written; "
     "the reference carries them as wild cards and never compares them; sort is not offered while a list holds a wild card",
     "get_at / get_at_ptr (every index 0..len), front, back, length, capacity are not alphabet symbols: they are called on both lists "
-    "after every operation in every state",
-    "capacity oracle = what array_list.h states: capacity >= length and fits the storage, static capacity fixed, successful "
-    "ensure_capacity/set_at/push covers the index, growth by exactly a factor of 2 whenever doubling suffices, shrink_to_fit leaves "
-    "capacity == length, clear keeps capacity; otherwise the observed capacity is adopted",
+    "after every newly explored transition, i.e. in every state and at every index; replayed prefixes are not re-observed "
+    "(deterministic re-execution, checked by the engine's canon-on-replay)",
+    "capacity oracle = what array_list.h states: capacity >= length and fits the storage (dynamic: current_size <= size of the "
+    "live allocation), static capacity fixed, successful ensure_capacity/set_at/push covers the index, growth by exactly a factor "
+    "of 2 whenever doubling suffices, shrink_to_fit leaves capacity == length, clear keeps capacity; otherwise the observed "
+    "capacity is adopted",
     "error codes demanded only where a header documents them (LIST_EMPTY, INVALID_INDEX for get/erase/static set_at/static "
     "ensure_capacity, DEST_COPY_TOO_SMALL); push on a full static list may raise LIST_EXCEEDS_MAX_SIZE or INVALID_INDEX; overflowing "
     "indices (SIZE_MAX, SIZE_MAX/item_size) must fail and change nothing, any error code; shrink_to_fit on a static list must change "
     "nothing, either return value",
-    "code-level contracts respected as preconditions: swap indices < length, copy from a list whose data is non-NULL "
-    "(AWS_FATAL_PRECONDITION in aws_array_list_copy), swap_contents only between two dynamic lists of one allocator",
+    "code-level contracts respected as preconditions: swap indices < length, copy only from a list whose data is non-NULL "
+    "(AWS_FATAL_PRECONDITION in aws_array_list_copy aborts otherwise), swap_contents only between two dynamic lists of one allocator",
     "no allocator-balance verdict (the property does not speak about leaks; shrink_to_fit on an empty list with capacity is known "
     "to drop its buffer, DESIGN section 6)",
-    "linked list: node pools of 3,4 (quick) and 3,4,5 (thorough) nodes, lists A and B, every operation names its nodes explicitly; "
+    "linked list: node pools of 2,3,4 (quick) and 3,4,5 (thorough) nodes, lists A and B, every operation names its nodes explicitly; "
     "pop/front/back only on non-empty lists, remove/swap_nodes/anchors only on nodes in a list, inserted nodes are in no list",
     "states are de-duplicated on a 128-bit hash of the canonical state (hash compaction)",
 ]
